@@ -35,6 +35,10 @@ func c01Case(c *hx.Ctx, r *hx.RNG, idx int64) {
 	if c.Verbose {
 		fmt.Println("case:", k.desc(true))
 	}
+	if k.costly(l) {
+		c.Skip()
+		return
+	}
 	got, pi := k.exec()
 	cls := k.op + "/" + k.class
 	if pi != nil {
